@@ -19,6 +19,7 @@ import (
 	"go/token"
 	"os"
 	"path/filepath"
+	"runtime/debug"
 	"sort"
 	"strconv"
 	"strings"
@@ -165,6 +166,10 @@ func fail(pos token.Pos, f string, a ...any) {
 		p := fset.Position(pos)
 		where = fmt.Sprintf("%s:%d: ", filepath.Base(p.Filename), p.Line)
 	}
+	if os.Getenv("GO2LEAN_DEBUG") != "" {
+		fmt.Fprintln(os.Stderr, where+fmt.Sprintf(f, a...))
+		debug.PrintStack()
+	}
 	panic(unsupported{where + fmt.Sprintf(f, a...)})
 }
 
@@ -247,6 +252,20 @@ func arrayLenOf(g string) int {
 	return -1
 }
 
+// structAlias: for the target being translated, a Go struct type stands for another entry of structTable (the decoders see
+// delegation.Token with its nonce and metadata, which the chain functions do not model)
+var structAlias = map[string]string{}
+
+func structFor(g string) *structDef {
+	if a, ok := structAlias[g]; ok {
+		return structTable[a]
+	}
+	if st, ok := structTable[g]; ok {
+		return st
+	}
+	return nil
+}
+
 // concreteTypes: Go types that the target being translated sees as their modelled struct rather than as the opaque
 // parameter typeTable gives to every other target (did.DID inside package did)
 var concreteTypes = map[string]bool{}
@@ -279,7 +298,7 @@ func leanOfGoName(p *pkg, g string) (string, bool) {
 		return "(List " + in + ")", true
 	}
 	if strings.HasPrefix(g, "*") {
-		if st, ok := structTable[g[1:]]; ok { // pointer to a modelled struct: the struct value
+		if st := structFor(g[1:]); st != nil { // pointer to a modelled struct: the struct value
 			return st.leanType, true
 		}
 		in, ok := leanOfGoName(p, g[1:])
@@ -288,7 +307,7 @@ func leanOfGoName(p *pkg, g string) (string, bool) {
 		}
 		return "(Option " + in + ")", true
 	}
-	if st, ok := structTable[g]; ok {
+	if st := structFor(g); st != nil {
 		return st.leanType, true
 	}
 	// a named type of the same package declared over a basic type (type Command string)
@@ -504,7 +523,7 @@ func (f *fn) expr(e ast.Expr) ex {
 	case *ast.CompositeLit:
 		// T{field: value, …} of a modelled struct with EVERY modelled field given by name
 		t, ok := typeOfExpr(f.p, x.Type)
-		st := structTable[t.gon]
+		st := structFor(t.gon)
 		if !ok || st == nil || st.fields == nil {
 			fail(x.Pos(), "composite literal of %s", goTypeName(f.p, x.Type))
 		}
@@ -568,7 +587,7 @@ func (f *fn) expr(e ast.Expr) ex {
 		}
 		// field of a modelled struct
 		r := f.expr(x.X)
-		if st, ok := structTable[r.t.gon]; ok {
+		if st := structFor(r.t.gon); st != nil {
 			ft, ok := st.fields[x.Sel.Name]
 			if !ok {
 				fail(x.Pos(), "field %s of %s is not modelled", x.Sel.Name, r.t.gon)
@@ -872,7 +891,7 @@ func (f *fn) call(x *ast.CallExpr) ex {
 				return f.callTarget(tg, &r, x.Args, x.Pos())
 			}
 			// a trivial getter of a modelled struct
-			if st, ok := structTable[g]; ok && len(x.Args) == 0 {
+			if st := structFor(g); st != nil && len(x.Args) == 0 {
 				sp, err := loadPkg(st.dir)
 				if err == nil {
 					if fd := sp.funcDecl(tname, sel.Sel.Name); fd != nil {
@@ -1978,7 +1997,11 @@ func translate(tg *target) (text string, err error) {
 	for _, c := range tg.Concrete {
 		concreteTypes[c] = true
 	}
-	defer func() { concreteTypes = map[string]bool{} }()
+	structAlias = map[string]string{}
+	for k, v := range tg.StructAs {
+		structAlias[k] = v
+	}
+	defer func() { concreteTypes = map[string]bool{}; structAlias = map[string]string{} }()
 	p, e := loadPkg(tg.Dir)
 	if e != nil {
 		return "", e
@@ -1986,6 +2009,12 @@ func translate(tg *target) (text string, err error) {
 	fd := p.funcDecl(tg.Recv, tg.Name)
 	if fd == nil || fd.Body == nil {
 		return "", fmt.Errorf("function not found")
+	}
+	if tg.StructLocal != "" {
+		// scalar replacement of the struct-typed local (structlocal.go): the translation sees the rewritten body
+		cp := *fd
+		cp.Body = rewriteStructLocal(p, fd, tg.StructLocal)
+		fd = &cp
 	}
 	f := &fn{tg: tg, p: p, decl: fd, uses: map[string]bool{}, builders: map[string]string{}, rangeOf: map[string]string{}, makeIsBuilder: map[*ast.CallExpr]bool{}}
 	f.findBuilders(fd.Body)
